@@ -358,6 +358,9 @@ class FakeFile:
             return "".join(r["text"] for r in c) if "b" not in self.mode else b"".join(r["text"] for r in c)
         if isinstance(c, (str, bytes)):
             return c
+        if isinstance(c, dict) and "b" not in self.mode:
+            import json
+            return json.dumps(c)          # a json side-car file (e.g. the .ch compression header)
         raise Unsupported("read of a file without textual content")
 
     def readline(self):
